@@ -98,7 +98,11 @@ def _get_boolability_no_mvv(value: Value) -> Boolability:
     if isinstance(value, AnnotatedValue):
         value = value.value
     value = replace_known_sequence_value(value)
-    if isinstance(value, AnyValue):
+    if isinstance(value, MultiValuedValue):
+        # a union nested in a union or wrapped in Annotated (e.g. the fallback of a
+        # TypeVar with constraints)
+        return get_boolability(value)
+    elif isinstance(value, AnyValue):
         return Boolability.boolable
     elif isinstance(value, UnboundMethodValue):
         if value.secondary_attr_name:
